@@ -209,8 +209,10 @@ def subscript(base, idx):
         items = idx.items if idx.kind == "indextuple" else None
         if items and len(items) == 2:
             it = items[1]
-            if it.has_const() and it.const == 3:
+            if it.has_const() and it.const in (3, -1):
                 return "TA"
+            if it.kind in ("list", "tuple") and it.items is not None and len(it.items) == 1 and it.items[0].has_const() and it.items[0].const in (3, -1):
+                return "TA"          # eq[:, [3]]: the offset column kept as a column
             if it.kind == "slice" and it.extra is not None:
                 try:
                     hi = ast.literal_eval(it.extra.upper) if it.extra.upper is not None else None
